@@ -49,6 +49,8 @@ NoNode == 0
 (*   watch  registered (observer, variable) pairs; survives reset and load  *)
 (*   vm     the globals as of the previous call (name -> value id)         *)
 (*   calls  external function -> number of host callbacks so far           *)
+(*   pmsgs  messages raised outside a continue (e.g. by the constructor)   *)
+(*          and not yet handed to a handler                                *)
 (*   lost   the position is not tracked (after an operation this           *)
 (*          specification says nothing about); only reset and load         *)
 (*          re-establish it                                                *)
@@ -56,7 +58,7 @@ NoNode == 0
 Fresh(root, froot) ==
   [ pos |-> (DefaultFlow :> root), cur |-> DefaultFlow, pend |-> FALSE, home |-> root,
     froot |-> froot, last |-> NObs[root], acc |-> <<>>, memo |-> <<>>, multi |-> FALSE,
-    lost |-> FALSE, watch |-> {}, vm |-> <<>>, calls |-> <<>> ]
+    lost |-> FALSE, watch |-> {}, vm |-> <<>>, calls |-> <<>>, pmsgs |-> NObs[root].newmsgs ]
 
 Here(s) == s.pos[s.cur]
 Alive(s) == DOMAIN s.pos
@@ -87,7 +89,8 @@ Track(s, e) ==
            ELSE IF e.op = "remove_observer" THEN {p \in s.watch : p[1] # e.wo}
            ELSE s.watch
       c == [f \in DOMAIN e.ext |-> (IF f \in DOMAIN s.calls THEN s.calls[f] ELSE 0) + e.ext[f]] IN
-  [s EXCEPT !.watch = w, !.vm = e.vm, !.calls = c @@ s.calls]
+  [s EXCEPT !.watch = w, !.vm = e.vm, !.calls = c @@ s.calls,
+            !.pmsgs = IF e.op = "cont" THEN <<>> ELSE s.pmsgs]
 
 \* a rejected call: nothing changes (C09)
 RejectedF(s) == s
